@@ -207,7 +207,7 @@ def build(t, dt):
     if op == "kron":
         return pylops.Kronecker(build(t["a"], dt), build(t["b"], dt), dtype=dt)
     if op == "realimag":
-        sub = build(t["a"], np.complex128 if is_complex(t["a"]) else np.float64)
+        sub = build(t["a"], np.complex128 if (is_complex(t["a"]) or t.get("mode2")) else np.float64)
         return sub.toreal(forw=t["fw"], adj=t["aj"]) if t["real"] else sub.toimag(forw=t["fw"], adj=t["aj"])
     raise ValueError(op)
 
@@ -362,8 +362,11 @@ def gen(r, m, n, d, cfg):
         ms, ns = split(r, m, 2), split(r, n, 2)
         return {"op": "block", "ess": [[gen(r, mi, ni, max(d - 2, 0), cfg) for ni in ns] for mi in ms]}
     if op == "kron":
-        m1 = r.choice([k for k in range(1, m + 1) if m % k == 0])
-        n1 = r.choice([k for k in range(1, n + 1) if n % k == 0])
+        dm = [k for k in range(1, m + 1) if m % k == 0]
+        dn = [k for k in range(1, n + 1) if n % k == 0]
+        # prefer non-trivial factors (the reshape / two-pass logic is invisible with 1-sized factors)
+        m1 = r.choice(dm[1:-1] if len(dm) > 2 and r.random() < 0.7 else dm)
+        n1 = r.choice(dn[1:-1] if len(dn) > 2 and r.random() < 0.7 else dn)
         return {"op": "kron", "a": g(m1, n1), "b": g(m // m1, n // n1)}
     raise ValueError(op)
 
@@ -415,6 +418,8 @@ def gen_tree(r, tier, kind):
     d = r.randint(1, maxd)
     dims = [1, 1, 2, 2, 3, 3, 4] + ([5] if tier != "quick" else [])
     m, n = r.choice(dims), r.choice(dims)
+    if kind == "kron":
+        m, n = r.choice([2, 4, 4, 6, 6]), r.choice([2, 4, 4, 6, 6])
     for _ in range(200):
         if kind == "colsroot":
             t = gen_cols(r, m, n, d, cfg)
